@@ -278,22 +278,25 @@ def replay_known(mod, prop):
     {id, status, violates, message}."""
     out = []
     for e in load_known(prop):
-        rp = e.get("replay", {})
-        rp = rp.get(prop) if isinstance(rp, dict) else rp
-        if not rp:
+        rps = e.get("replay", {})
+        rps = rps.get(prop) if isinstance(rps, dict) else rps
+        if not rps:
             continue
-        with open(os.path.join(VERIF, rp)) as f:
-            doc = json.load(f)
-        try:
-            msg = mod.replay(doc["case"])
-        except Violation as v:
-            msg = str(v)
         what = e["what"]
         if isinstance(what, dict):
             what = what.get(prop) or next(iter(what.values()))
-        out.append({"id": e["id"], "status": e["status"], "what": what,
-                    "replay": rp, "violates": msg is not None,
-                    "message": msg})
+        for rp in (rps if isinstance(rps, list) else [rps]):
+            with open(os.path.join(VERIF, rp)) as f:
+                doc = json.load(f)
+            try:
+                msg = mod.replay(doc["case"])
+            except Violation as v:
+                msg = str(v)
+            w = what if rp == (rps[0] if isinstance(rps, list) else rps) \
+                else doc.get("what", what)
+            out.append({"id": e["id"], "status": e["status"], "what": w,
+                        "replay": rp, "violates": msg is not None,
+                        "message": msg})
     return out
 
 
